@@ -312,6 +312,26 @@ def check_c07(rr: dict, w, sc: dict, truth: list[dict] | None, fkind: str, tz: s
                 holds = all(kk in post for kk in listed)
                 if (cw.get("result") == "PASS") != holds:
                     out.append(V("checks", f"context_writes_realized_{cw.get('result')}_but_{holds}", f"SER {k}: listed={listed} post keys={sorted(post)}"))
+        # the node that raised: what it left in the context before raising is known from the executor seam
+        if failed_here and e is not None and e.get("ctx_on_error") is not None:
+            actual = e["ctx_on_error"]
+            want_created = sorted(set(actual) - set(prev_ctx))
+            want_updated = sorted(kk for kk in set(actual) & set(prev_ctx) if not _same(actual[kk], prev_ctx[kk]))
+            if sorted(cd.get("created_keys") or []) != want_created:
+                out.append(V("context_delta", f"created_keys_of_failed_node:{label}", f"error SER {k} ({proc.get('ref')}): created_keys={cd.get('created_keys')} actual={want_created}"))
+            if sorted(cd.get("updated_keys") or []) != want_updated:
+                out.append(V("context_delta", f"updated_keys_of_failed_node:{label}", f"error SER {k}: updated_keys={cd.get('updated_keys')} actual={want_updated}"))
+            cw = post_checks.get("context_writes_realized")
+            if cw is not None:
+                det = cw.get("details") or {}
+                listed = list(det.get("created_keys") or []) + list(det.get("updated_keys") or [])
+                holds = all(kk in actual for kk in listed)
+                if (cw.get("result") == "PASS") != holds:
+                    out.append(V("checks", f"context_writes_realized_{cw.get('result')}_but_{holds}_on_failed_node", f"error SER {k}: listed={listed} context after the failure has {sorted(actual)}"))
+            cg = ((s.get("summaries") or {}).get("post_context") or {}).get("sha256")
+            if cg is not None:
+                import json as _json
+                _book(digest_book, "ctx", _json.dumps(actual, sort_keys=True, default=repr), cg, out, k)
         # digests
         sm = s.get("summaries") or {}
         if k + 1 < len(sers):
